@@ -1043,6 +1043,9 @@ class _NegClamp(PathAnalysis):
             if c[0] == "bin" and c[1] in ("<", "<=", ">", ">=") and kind(strip(c[2])) == "var" and strip(c[2])[1] in user and is_int(c[3], 0):
                 u = (u or set(user))
                 u.discard(strip(c[2])[1])
+            elif c[0] == "bin" and c[1] in ("<", "<=", ">", ">=") and kind(strip(c[3])) == "var" and strip(c[3])[1] in user and is_int(c[2], 0):
+                u = (u or set(user))
+                u.discard(strip(c[3])[1])  # 0 > length
             elif c[0] == "bin" and c[1] in ("<", "<=", ">", ">="):
                 # used as a bound for another quantity (`remaining > length`) while its sign is unknown
                 for a, o in ((c[2], c[3]), (c[3], c[2])):
